@@ -511,6 +511,9 @@ class SaveWalk(proto.Interp):
             return [('ok', T('chunks', recv), st)]
         if m in ('flush', 'close', 'set_progress_message', 'set_complete_message', 'set_complete', 'increment'):
             return [('ok', C(None), st)]
+        if (is_t(base) and base[1] == 'file') or m in ('iter_lines', 'raw', 'read', 'readinto', 'writelines', 'copyfileobj'):
+            # another way of moving the bytes (writelines, shutil.copyfileobj, response.raw.read ...) that this walk does not model
+            return [('ok', T('call', 'stream.' + m, C(0), base, *args), st.emit('io-unknown', m))]
         return None
 
     def on_attr_store(self, target, base, value, st):
@@ -561,7 +564,10 @@ def check_saver(ctx, R):
                 probs.append('output file not opened for truncating binary write (%s)' % mtxt); ok = False
         n_ok += ok
     probs = sorted(set(probs))
-    if probs:
+    unknown_io = sorted({e[1] for kind, val, st in outs for e in st.trace if e[0] == 'io-unknown'})
+    if unknown_io:
+        ctx.undecided('C20.T3', sv, 'the stream is written through %s, which the saver walk does not model: nothing is concluded about the bytes written' % ', '.join('.%s()' % x for x in unknown_io))
+    elif probs:
         for p in probs:
             ctx.violated('C20.T3', sv, p, p)
     elif n_ok == 0:
